@@ -141,6 +141,8 @@ def run(ctx):
                                "the unwraps in register::Response::new can fail: up to %s bytes are appended to a buffer of capacity %s" % (total if known else "an unbounded number of", cap), cfg=cfg, where=fn["sp"])
                     # every append is checked by its unwrap (discharged by the inequality above): none is silently dropped
                     for e in p.effects:
+                        if c.aux(e):
+                            continue
                         ctx.oblige("C09|new|unwrap|" + S.show(e.args[1] if len(e.args) > 1 else e.args[0])[:60], c.fate(p, e) == "ok",
                                    "an append in register::Response::new is neither checked nor unwrapped", cfg=cfg, where=H.line(e.node), nontrivial=False)
                     # struct literal: every field from the same-named parameter / the assembled key
